@@ -72,6 +72,12 @@ impl Palette {
                     let index = index - nb_colors;
                     if index < 64 {
                         for (c, sample) in channels_it.enumerate() {
+                            // Implicit entries are defined only for the first three channels.
+                            if c >= 3 {
+                                *sample = S::default();
+                                continue;
+                            }
+
                             *sample = S::from_i32(
                                 ((index >> (2 * c)) % 4) * ((1i32 << bit_depth) - 1) / 4
                                     + (1i32 << bit_depth.saturating_sub(3)),
@@ -79,7 +85,12 @@ impl Palette {
                         }
                     } else {
                         let mut index = index - 64;
-                        for sample in channels_it {
+                        for (c, sample) in channels_it.enumerate() {
+                            if c >= 3 {
+                                *sample = S::default();
+                                continue;
+                            }
+
                             *sample = S::from_i32((index % 5) * ((1i32 << bit_depth) - 1) / 4);
                             index /= 5;
                         }
